@@ -78,6 +78,9 @@ fn file_secret(r: &mut Rng, dir: &Path) -> (SecretMeta, Secret, String, Vec<Vec<
     let label = format!("file-label-{}", r.below(100000));
     let mut secret: Secret = mk(r).try_into().unwrap();
     if r.below(2) == 0 {
+        // a plain (non-file) custom field first, then the attachment: field positions and attachment positions differ
+        let plain = Secret::Note { text: "a custom field".to_string().into(), user_data: UserData::default() };
+        secret.user_data_mut().push(SecretRow::new(uuid::Uuid::from_bytes(r.arr()), SecretMeta::new("plain field".to_string(), SecretType::Note), plain));
         let att: Secret = mk(r).try_into().unwrap();
         secret.user_data_mut().push(SecretRow::new(uuid::Uuid::from_bytes(r.arr()), SecretMeta::new(format!("attachment-{}", r.below(100000)), SecretType::File), att));
     }
@@ -309,9 +312,27 @@ pub async fn run(cases: usize, seed: u64) {
                 model.insert(fid, (fname, BTreeMap::new()));
                 let (m, s, l, files) = file_secret(&mut r, &sandbox_dir.join("inputs"));
                 let nfiles = files.len();
-                let id = account.create_secret(m, s, AccessOptions { folder: Some(fid), ..Default::default() }).await.unwrap().id;
-                model.get_mut(&fid).unwrap().1.insert(id, (l, String::new(), files));
+                let id = match account.create_secret(m, s, AccessOptions { folder: Some(fid), ..Default::default() }).await {
+                    Ok(c) => c.id,
+                    Err(e) => fail("file-secret-not-created", format!("\"backend\":\"{}\",\"case\":{},\"files\":{},\"note\":\"a file secret whose user data holds a plain field followed by a file attachment\",\"error\":\"{}\"", backend, case, nfiles, e.to_string().replace('"', "'"))),
+                };
+                let mut files = files;
                 trace.push(format!("create_file_secret({} file(s))", nfiles));
+                if nfiles == 2 {
+                    // add a second attachment through update_secret (the stored secret carries the first one's checksum)
+                    use sos_vault::secret::SecretRow;
+                    let (row, _) = account.read_secret(&id, Some(&fid)).await.unwrap();
+                    let mut updated = row.secret().clone();
+                    let bytes: Vec<u8> = (0..(1 + r.below(2000) as usize)).map(|_| r.next() as u8).collect();
+                    let p = sandbox_dir.join("inputs").join(format!("added-{}.txt", r.below(100000000)));
+                    std::fs::write(&p, &bytes).unwrap();
+                    let att: Secret = p.try_into().unwrap();
+                    updated.user_data_mut().push(SecretRow::new(uuid::Uuid::from_bytes(r.arr()), SecretMeta::new("second attachment".to_string(), SecretType::File), att));
+                    account.update_secret(&id, row.meta().clone(), Some(updated), AccessOptions { folder: Some(fid), ..Default::default() }).await.unwrap();
+                    files.push(bytes);
+                    trace.push("update_secret(+1 attachment)".into());
+                }
+                model.get_mut(&fid).unwrap().1.insert(id, (l, String::new(), files));
             }
             let mut snapshot: Option<(VaultId, Vec<u8>, AccessKey, FolderModel)> = None;
             if case % 5 == 3 {
